@@ -96,7 +96,7 @@ def envMsgRead (frameDone fin flate client ioErr big : Bool) (op : Nat) : Env :=
     fn := fun _ => none }
 
 def msgReadExpected (fin flate : Bool) (op : Nat) : Res :=
-  if fin then (if flate then ⟨["flateTail.Read"], .ret "callee"⟩ else ⟨[], .ret "err"⟩)
+  if fin then (if flate then ⟨["flateTail.Read"], .ret "ok"⟩ else ⟨[], .ret "err"⟩)
   else if op != 0 then ⟨["readLoop", "writeError"], .ret "err"⟩
   else ⟨["readLoop", "setFrame"], .opaque "next iteration"⟩
 
@@ -118,7 +118,7 @@ def msgWriteExpected (lockErr closed flateNeg flateOn big : Bool) (op : Nat) : R
   else if closed then ⟨["writeMu.lock"], .ret "err"⟩
   else
     let pre := ["writeMu.lock"] ++ (if flateNeg && op != 0 && big then ["ensureFlate"] else [])
-    if flateOn then ⟨pre ++ ["flateWriter.Write"], .ret "callee"⟩ else ⟨pre ++ ["write"], .ret "callee"⟩
+    if flateOn then ⟨pre ++ ["flateWriter.Write"], .ret "ok"⟩ else ⟨pre ++ ["write"], .ret "ok"⟩
 
 def envMsgClose (lockErr closed flateOn takeover : Bool) : Env :=
   { b := fun n => if n = "err!=nil" then some lockErr else if n = "closed" then some closed
